@@ -348,6 +348,27 @@ func trimStack(st []byte) string {
 	return s
 }
 
+// watchdog aborts the process when one case exceeds VERIF_CASE_TIMEOUT seconds of wall time
+// (default 120): inside a synctest bubble a goroutine parked on a mutex keeps virtual time from
+// advancing, so a lock cycle (or a harness mistake) shows up as a wall-clock hang. The case is
+// written to hang-<shard>.json, all stacks are dumped, exit status 4.
+func watchdog(name string, caseJSON []byte) func() {
+	secs := envInt("VERIF_CASE_TIMEOUT", 120)
+	t := time.AfterFunc(time.Duration(secs)*time.Second, func() {
+		if dir := outDir(); dir != "" {
+			raw, _ := json.Marshal(map[string]any{"check": name, "signature": "hang", "case": json.RawMessage(caseJSON)})
+			_ = os.WriteFile(filepath.Join(dir, fmt.Sprintf("hang-%d.json", shardID())), raw, 0o644)
+		}
+		buf := make([]byte, 1<<20)
+		n := runtime.Stack(buf, true)
+		fmt.Fprintf(os.Stderr, "VERIF-HANG check=%s case=%s\n%s\n", name, caseJSON, buf[:n])
+		writeStats()
+		os.Exit(4)
+	})
+
+	return func() { t.Stop() }
+}
+
 var propID = "C??"
 
 // SetID sets the property id used for panic signatures.
@@ -368,7 +389,9 @@ func Register[C any](p Prop[C]) {
 			sideFile(p.Name, caseJSON)
 		}
 		r := &R{prop: ps}
+		stopWatch := watchdog(p.Name, caseJSON)
 		runGuarded(&p, c, r, propID)
+		stopWatch()
 		ps.account(caseJSON, r)
 		if r.failed {
 			ps.recordFailure(caseJSON, r)
